@@ -334,6 +334,16 @@ def vp(m, name, args, g, I):
     if name == 'vp_thread_exit':
         m.thread_exit(g)
         return g, None, False
+    if name == 'vp_heap_allocs':
+        # oracle helper: number of heap allocations performed so far (term)
+        eg, key = m.vis(g)
+        r = 0
+        seen = set()
+        for al in m.heap:
+            if id(al) in seen or al.kind != 'heap': continue
+            seen.add(id(al))
+            r = BinOp('add', r, BoolToBV(al.allocated, 64), 64)
+        return g, m.keep(key, eg, r, ir.IntTy(64)), False
     if name == 'vp_alive':
         # returns 1 iff the pointer is the base of a live heap allocation (oracle helper, not a program action)
         eg, key = m.vis(g)
